@@ -72,6 +72,14 @@ impl World {
                 self.dut.join()
             }
             Op::Send { port, len, confirmed, txn } => {
+                // len 255: the largest application payload of the current data rate (M - 8)
+                let len = if *len == 255 {
+                    let region = self.env.borrow().cfg.region;
+                    snap_before.as_ref().and_then(|s| crate::refregion::dr_def(region, s.data_rate)).map(|d| d.max_mac - 8).unwrap_or(11)
+                } else {
+                    *len
+                };
+                let len = &len;
                 payload = app_payload(idx, *len);
                 self.env.borrow_mut().begin_op(idx, Some(txn), None, format!("send(port={port}, len={len}, confirmed={confirmed})"));
                 self.dut.send(&payload, *port, *confirmed)
@@ -110,18 +118,58 @@ impl World {
                 }
             }
             Op::SaveRestore => {
-                self.env.borrow_mut().begin_op(idx, None, None, "save session / power loss / restore".into());
+                self.env.borrow_mut().begin_op(idx, None, None, "save session / power loss / restore into a fresh device".into());
+                let (dr, adr) = (self.dut.get_dr(), self.dut.get_adr());
+                let before = self.dut.snapshot().and_then(|s| s.session);
                 match self.dut.session_json() {
                     Some(json) => match self.dut.restore_from_json(&json) {
-                        Ok(()) => OpResult::Done,
-                        Err(e) => OpResult::Unexpected(format!("own serialisation refused: {e}")),
+                        Ok(()) => {
+                            // the application restores its own settings
+                            let _ = self.dut.set_dr(dr);
+                            if !adr {
+                                let _ = self.dut.set_adr(false);
+                            }
+                            let after = self.dut.snapshot().and_then(|s| s.session);
+                            let json2 = self.dut.session_json();
+                            if before != after {
+                                OpResult::Unexpected(format!("roundtrip-field: session before {:?} after {:?}", before, after))
+                            } else if json2.as_deref() != Some(json.as_str()) {
+                                OpResult::Unexpected("roundtrip-text: the restored session serialises to a different document".to_string())
+                            } else {
+                                self.env.borrow_mut().bump("probe.save-restore");
+                                OpResult::Done
+                            }
+                        }
+                        Err(e) => OpResult::Unexpected(format!("roundtrip-refused: own serialisation refused: {e}")),
                     },
                     None => OpResult::Done,
                 }
             }
-            Op::RestoreMutated(_) | Op::Misuse(_) => {
-                // handled by the properties that use them
-                self.env.borrow_mut().begin_op(idx, None, None, format!("{}", op.kind()));
+            Op::RestoreMutated(m) => {
+                self.env.borrow_mut().begin_op(idx, None, None, format!("restore from a mutated document (kind {}, arg {})", m.kind, m.arg));
+                match self.dut.session_json() {
+                    Some(json) => {
+                        let mutated = crate::mutate::mutate_json(&json, m);
+                        self.env.borrow_mut().push(Ev::Note(format!("document: {}", mutated.chars().take(400).collect::<String>())));
+                        match self.dut.restore_from_json(&mutated) {
+                            Ok(()) => {
+                                let mut e = self.env.borrow_mut();
+                                e.mutated_session = true;
+                                e.bump("probe.mutated-document-accepted");
+                                OpResult::Done
+                            }
+                            Err(e) if e.starts_with("PANIC") => OpResult::Panic { msg: e, loc: "deserialisation".into() },
+                            Err(_) => {
+                                self.env.borrow_mut().bump("probe.mutated-document-refused");
+                                OpResult::Done
+                            }
+                        }
+                    }
+                    None => OpResult::Done,
+                }
+            }
+            Op::Misuse(_) => {
+                self.env.borrow_mut().begin_op(idx, None, None, "no-op".into());
                 OpResult::Done
             }
         };
